@@ -19,19 +19,8 @@ func NewNativeIterator(
 	txnID header.TxnID,
 	deletedCutoff header.Timestamp,
 ) (*NativeIterator, error) {
-	if formatVersion == 0 {
-		return nil, errors.New("no snapshot formatVersion provided, or 0")
-	}
-	// Check if the snapshot tells us this snapshot is compatible
-	if compatVersion > snapshot.CurrentFormatVersion {
-		return nil, fmt.Errorf("snapshot compatVersion too new for this version (%d > %d, formatVersion %d)",
-			compatVersion, snapshot.CurrentFormatVersion, formatVersion)
-	}
-	// Check if we still support an older snapshot type. We do try to forever
-	// support old version as long as there is no very strong reason not to.
-	if formatVersion < snapshot.CompatFormatVersion {
-		return nil, fmt.Errorf("snapshot formatVersion no longer supported (%d < %d)",
-			formatVersion, snapshot.CompatFormatVersion)
+	if err := checkSnapshotVersions(formatVersion, compatVersion); err != nil {
+		return nil, err
 	}
 	if txnID == 0 {
 		return nil, ErrNoTxnID
@@ -44,6 +33,26 @@ func NewNativeIterator(
 		HeaderPaddingBlock:   false,
 		DeletedCutoff:        deletedCutoff,
 	}, nil
+}
+
+// checkSnapshotVersions checks if this version can read a snapshot with the
+// given formatVersion and compatVersion.
+func checkSnapshotVersions(formatVersion, compatVersion uint32) error {
+	if formatVersion == 0 {
+		return errors.New("no snapshot formatVersion provided, or 0")
+	}
+	// Check if the snapshot tells us this snapshot is compatible
+	if compatVersion > snapshot.CurrentFormatVersion {
+		return fmt.Errorf("snapshot compatVersion too new for this version (%d > %d, formatVersion %d)",
+			compatVersion, snapshot.CurrentFormatVersion, formatVersion)
+	}
+	// Check if we still support an older snapshot type. We do try to forever
+	// support old version as long as there is no very strong reason not to.
+	if formatVersion < snapshot.CompatFormatVersion {
+		return fmt.Errorf("snapshot formatVersion no longer supported (%d < %d)",
+			formatVersion, snapshot.CompatFormatVersion)
+	}
+	return nil
 }
 
 // NativeIterator iterates over a snapshot DBI and updates the LMDB with
